@@ -600,7 +600,9 @@ class HealthAdapter(engine.Adapter):
         if alive:
             s.shadows = alive
         else:
-            viols = results[0][1]
+            # no convention fits: report what every convention objects to (else the first shadow's verdict)
+            common = set.intersection(*[{(x["clause"], x["signature"]) for x in v} for sh, v in results])
+            viols = [x for x in results[0][1] if (x["clause"], x["signature"]) in common] or results[0][1]
         if self.cfg["menu"] == "obs" and not viols:
             viols = self._judge_observations(s, ev, before, after)
         tags = []
